@@ -732,8 +732,8 @@ def has_all_false_path(cm):
 
 # ------------------------------------------------------------------ run
 
-def run(ctx: C.Ctx):
-    rng = ctx.rng
+def run(ctx: C.Ctx, rng=None):
+    rng = rng or ctx.rng
     logging.getLogger('dataclass_wizard').setLevel(logging.ERROR)
     ctx.rule += (' | end to end: class models of 2..4 int fields over every documented alias / path form of both engines '
                  '(one / several aliases, all, dump=False, skip, paths of depth 1..4 with quoted / int / bool / float components, '
